@@ -182,6 +182,9 @@ func c08() int {
 	// the amount as a client states it, through the v1 / v2 routers and bulk (apivars.go)
 	apiCases, apiAccepted, apiRefused := apiAmounts(rep)
 	cov["api_amount_cases"], cov["api_amount_accepted"], cov["api_amount_refused"] = apiCases, apiAccepted, apiRefused
+	// scripts on the REAL store, against the stand-in stores of the enumerations above (realstore.go)
+	rsH, rsS := realStoreConformance(rep, "")
+	cov["realstore_histories"], cov["realstore_steps"] = rsH, rsS
 	return rep.Finish(cov)
 }
 
